@@ -68,6 +68,33 @@ def line_event(case, di, si):
     return ev, ok
 
 
+def line_history_events(h):
+    """One TLC history of edits (ScanHist.tla) on ONE LineScan object; a line event after the creation and after every edit."""
+    from abtem.scan import LineScan
+    st = (Fraction(1, 4), Fraction(1, 2))
+    L = Fraction(*h[0]["L"])
+    scan = LineScan(start=(float(st[0]), float(st[1])), end=(float(st[0] + L), float(st[1])), gpts=h[0]["gpts"], endpoint=h[0]["endpoint"])
+    out = []
+    for i, step in enumerate(h):
+        if step["a"] == "SetLength":
+            L = Fraction(*step["v"])
+            scan.end = (float(st[0] + L), float(st[1]))
+        elif step["a"] == "SetSampling":
+            scan.sampling = float(Fraction(*step["v"]))
+        elif step["a"] == "SetGpts":
+            scan.gpts = int(step["v"])
+        pos = scan.get_positions()
+        md = scan.ensemble_axes_metadata
+        ok = all(ex32(v) for v in pos.ravel()) and ex32(scan.sampling)
+        end = (st[0] + L, st[1])
+        ev = {"k": "line", "case": {"history": h[: i + 1]}, "dir": 0, "raised": False, "start": [rat(st[0]), rat(st[1])], "end": [rat(end[0]), rat(end[1])],
+              "length": rat(L), "endpoint": [bool(scan.endpoint)], "gpts": [int(scan.gpts)], "shape": [int(s) for s in scan.shape],
+              "sampling": [r32(scan.sampling)], "points": [[r32(p[0]), r32(p[1])] for p in pos],
+              "meta": [{"offset": r32(md[0].offset), "sampling": r32(md[0].sampling)}]}
+        out.append((ev, ok))
+    return out
+
+
 def assemble_blocks(scan, chunks, lazy):
     """positions of a scan as it is actually consumed: split into blocks (lazy: ensemble_blocks().compute(), eager:
     generate_blocks()), each block's get_positions() placed at its slice"""
@@ -204,7 +231,7 @@ def self_test(ctx: Ctx):
 def run(ctx: Ctx):
     quick = ctx.tier == "quick"
     ctx.rule = ("axis cases (length x gpts|sampling x endpoint) enumerated by TLC from ScanImpl, realised as LineScans along 4 "
-                "rational directions / 3 start points and as GridScans from pairs of axis cases; probe-shift scenarios (grid "
+                "rational directions / 3 start points and as GridScans from pairs of axis cases; histories of edits (end point, sampling, gpts) on one LineScan object from ScanHist.tla; probe-shift scenarios (grid "
                 "parity x extent x position class) enumerated by TLC; distinct = distinct (case, direction/start); "
                 "non-trivial = more than one position")
     ctx.assumptions += ["positions are stored as float32: rationals with denominator <= 1024 are recovered exactly (cases whose "
@@ -253,6 +280,28 @@ def run(ctx: Ctx):
                 if okb:
                     evs.append(evb)
                     ctx.case(("grid-blocks", json.dumps([a["c"], b["c"]]), ch, lazy))
+    # histories of edits on one LineScan object
+    hcfg = ("SPECIFICATION Spec\nCONSTANTS\n  Lengths <- MC_Lengths\n  SamplingSet <- MC_Samplings\n  GptsSet = {1, 2, 3, 5}\n  MaxLen = %d\n  Emit = TRUE\n"
+            "  SkipWhenGptsUnchanged = FALSE\nINVARIANT GeometryAfterEveryEdit\nINVARIANT EmitHistory\nCHECK_DEADLOCK FALSE\n" % (3 if quick else 4))
+    rh = ctx.design_check("MCScanHist", cfg_text=hcfg, label="ScanHist: geometry after every edit", workers=1, timeout=3000)
+    hists = [json.loads(tlc.tla_value_to_py(s)[1]) for s in rh.printed("HIST")]
+    hists.sort(key=lambda h: json.dumps(h, sort_keys=True))
+    rng.shuffle(hists)
+    if quick:
+        seen, first, rest = set(), [], []
+        for h in hists:
+            k = (tuple(st["a"] for st in h), h[0]["endpoint"])
+            (rest if k in seen else first).append(h)
+            seen.add(k)
+        hists = first + rest[:400]
+    nh = 0
+    for h in hists:
+        for ev, ok in line_history_events(h)[1:]:
+            if ok:
+                evs.append(ev)
+        nh += 1
+        ctx.case(("line-history", json.dumps(h, sort_keys=True)))
+    ctx.notes["line_histories"] = nh
     for c in probes:
         ev = probe_event(c, rng)
         evs.append(ev)
